@@ -80,6 +80,26 @@ needs = {
 "C17-4": ("GobEncode writes x's length as y's length prefix", "coordinates of different byte lengths (one below 2^248): about 1 point in 128"),
 "C18-3": ("ExtendedKey.String() appends into k.Version (spare capacity of the parse buffer)", "a key parsed from its string form whose descendants are serialised before the parsed object is used again: its chain code / fingerprint are overwritten"),
 "C18-4": ("depth guard written pk.Depth+1 > maxDepth on a uint8", "a parent at depth exactly 255: the child comes back with depth 0"),
+"C01-5": ("low-S normalisation rewritten with S >= halfN: the canonical value (q-1)/2 is mirrored to (q-1)/2+1", "the raw sum of the partial signatures equals exactly (q-1)/2: reachable only by steering the digest"),
+"C01-6": ("ECDSA PrepareForSigning multiplies into the caller's share (wi aliases xi)", "a second session started from the same in-memory key data"),
+"C03-5": ("ECDSA keygen round 3 reduces the share sum modulo the process-global curve's order", "the deprecated global curve set to edwards25519 in the process: Xi*G != BigXj[i], nothing fails"),
+"C03-6": ("EdDSA keygen round 3 collects verified VSS commitments in a map keyed by the free-form PartyID.Id string", "two parties carry the same (or a blank) id string, n >= 3: one contribution counted twice, another dropped"),
+"C04-5": ("ECDSA resharing round 5 asks NoProofMod() where it must ask NoProofFac()", "the mixed option combination: modulus proof on, factorisation proof off: old shares erased, every new member aborts"),
+"C04-6": ("EdDSA resharing round 4 takes the modulus for the BigXj powers from the process-global curve", "global curve not Edwards, t' >= 2, 256-bit party keys: every new member saves wrong public shares"),
+"C05-5": ("EdDSA resharing round 1 compares announced group keys against the first message evaluated", "the deviating old member announces another VALID point and its message is evaluated first: an honest member is blamed"),
+"C05-6": ("ECDSA resharing ssid reference = most frequent value, ties go to old index 0 (strict majority lost)", "exactly two old members, deviator index 0 alters / removes ssid: honest index 1 named"),
+"C06-5": ("BaseParty.WrapError wraps with the never-set FirstRound field when the party has no current round", "a message that must be rejected handed to a party that is not started yet or has finished: nil dereference"),
+"C06-6": ("EdDSA copyBytes padding loop replaced by copy(s[32-len:], ...)", "a peer's s_j longer than 32 bytes: slice bounds panic in finalization"),
+"C07-5": ("BaseParty.setRound clears the early-message flag before BaseStart consumes it", "a resharing new member whose whole inbox arrived before its Start(): deadlock without error"),
+"C07-6": ("ECDSA keygen round 2 NextRound releases the round-1 message slots", "a duplicate of a round-1 broadcast arriving two or more rounds late (or after the finish): index out of range"),
+"C08-5": ("ECDSA resharing messages: IsBroadcast = len(to) != 1", "a committee message with exactly one recipient, i.e. a new committee of exactly 2 members"),
+"C08-6": ("EdDSA keygen StoreMessage keeps the first copy per sender even if it came on the wrong channel", "a flag-flipped copy followed by the proper message from the same sender"),
+"C12-5": ("ProofMod.Verify splits the iterations over GOMAXPROCS workers with integer division", "GOMAXPROCS not dividing 80 (3, 6, 7, 12, ...): the tail iterations are never checked"),
+"C12-6": ("Bob's with-check challenge input list built with append into a shared backing array: z, z', t, v are no longer hashed", "ProofBobWC with X != nil and the shifts (ZPrm*h2^d, S2+d) or (V*rho^N, S*rho)"),
+"C19-5": ("safe-prime sieve exemption tests pBitLen instead of qBitLen", "bit length 7 only (q=53 is itself a sieve prime): no pair is ever returned"),
+"C19-6": ("GetRandomPositiveInt acceptance test flipped to lessThan.Cmp(try) != -1", "the raw draw equals the bound (probability about 1/(b+1) for tiny bounds that are not 2^k-1)"),
+"C20-5": ("GetCurveName compares curve objects by identity", "ed25519 points that did not come out of json.Unmarshal (tss.Edwards() builds a new object per call): fresh key data cannot be serialised"),
+"C20-6": ("ECDSA signing LocalParty.Update wipes secrets (incl. the aliased stored Xi) when an update returns an error with culprits", "an ECDSA session without derivation offset aborted by a tampered message: the stored share is 0 afterwards"),
 }
 conf = {}
 for f in glob.glob('/tmp/seed-confirm/*.result'):
